@@ -27,6 +27,8 @@ func repoDir() string {
 	return "/repo"
 }
 
+var currentLoaded *Loaded
+
 func loadRepo(patterns ...string) (*Loaded, error) {
 	cfg := &packages.Config{Mode: packages.LoadAllSyntax, Dir: repoDir(), BuildFlags: []string{"-tags=verif"},
 		Env: append(os.Environ(), "GOFLAGS=-mod=mod", "GOPROXY=off")}
@@ -49,7 +51,8 @@ func loadRepo(patterns ...string) (*Loaded, error) {
 	if err := cs.load(pkgs); err != nil {
 		return nil, err
 	}
-	return &Loaded{pkgs: pkgs, prog: prog, spkgs: spkgs, cs: cs}, nil
+	currentLoaded = &Loaded{pkgs: pkgs, prog: prog, spkgs: spkgs, cs: cs}
+	return currentLoaded, nil
 }
 
 // findFunc resolves "pkgpath.Name", "pkgpath.(*T).M", with optional $n closure suffixes.
